@@ -7,7 +7,7 @@ def A(name, variant, *args, **kw):
 
 def insts():
     out = []
-    for part in ('own', 'static', 'embedded', 'views'):
+    for part in ('own', 'static', 'embedded', 'views', 'stackops'):
         out.append(A(part, 'base', 'part=' + part))
         out.append(A(part + '-asan', 'asan', 'part=' + part))
     return out
